@@ -768,6 +768,9 @@ def symbolic_paths(fn, src, dst, atom_of_call, avoid=(), max_paths=20000, prog=N
                                     if m is not None:
                                         cases.append((m, x))
                                 val = ('cases', cases)
+                if val is None and fn.ty.get(c.dst['l']) == 'bool':
+                    # any other bool-valued call: an anonymous atom of its own (its outcome is unknown but it is one value)
+                    val = ('atom', 'anon:%s:bb%d' % (fn.name, i), True)
                 env[c.dst['l']] = val
 
     def go(i, env, cons, seen):
@@ -979,6 +982,72 @@ def inline_view(prog, fn, should_inline=None, max_depth=3, max_blocks=6000):
 
 
 
+def chain_filters(prog, closure_fn):
+    """the `filter` predicates an item has passed before it reaches `closure_fn` (a closure handed to map / for_each / filter_map /
+    any adaptor further down the same iterator chain): [(filter call, predicate closure Fn)]"""
+    out = []
+    for (parent, hc, ai) in handed_to(prog, closure_fn):
+        if ai < 1 or not hc.decl.startswith('std::iter::'):
+            continue
+        org = provenance(parent, hc.args[0], follow_all_call_args=False, pass_through=PASS_THROUGH | {
+            'map', 'filter', 'take_while', 'into_iter', 'iter', 'iter_mut', 'enumerate', 'rev', 'peekable', 'inspect', 'copied', 'cloned', 'by_ref'})
+        for x in org.calls:
+            # an item that got past `filter(p)` or `take_while(p)` satisfies p
+            if (x.decl.endswith('Iterator::filter') or x.decl.endswith('Iterator::take_while')) and len(x.args) > 1:
+                g = _closure_fn_of(prog, parent, x.args[1])
+                if g is not None:
+                    out.append((x, g))
+    return out
+
+
+def filter_guarantees(prog, closure_fn, atom_of_call):
+    """{atom id: bool} — the atoms that have one fixed truth value on every path of every preceding filter predicate that keeps the
+    item (returns true).  `atom_of_call(fn, call)` as for symbolic_paths; the caller makes sure its atoms speak about the item."""
+    fixed = {}
+    for (x, g) in chain_filters(prog, closure_fn):
+        cases = bool_cases(prog, g, atom_of_call)
+        if not cases:
+            continue
+        keep = [c for c, v in cases if v is True]
+        if not keep:
+            continue
+        for a in set().union(*[set(c) for c in keep]):
+            vals = {c.get(a) for c in keep}
+            if len(vals) == 1 and None not in vals:
+                fixed[a] = vals.pop()
+    return fixed
+
+
+def origins_with_captures(prog, owner, g, operand, follow_all_call_args=False):
+    """(fields, calls) an operand of g derives from; when g is a closure of `owner`, captured variables are followed into owner
+    (matched by variable name)"""
+    x = provenance(g, operand, follow_all_call_args=follow_all_call_args)
+    fields, calls = set(x.fields), list(x.calls)
+    if g is not owner and x.upvars:
+        for u in x.upvars:
+            nm = g.upvar_names.get(u)
+            for l, n in owner.varnames.items():
+                if n == nm:
+                    y = provenance(owner, l, follow_all_call_args=follow_all_call_args)
+                    fields |= y.fields
+                    calls += y.calls
+    return fields, calls
+
+
+def const_operands(f):
+    """the constant operands of a body (statement operands and call arguments)"""
+    for b in f.blocks.values():
+        for st in b['stmts']:
+            for o in st['r'].get('ops', []):
+                if isinstance(o, dict) and o.get('k') == 'const':
+                    yield o
+        t = b['term']
+        if t and t['t'] == 'call':
+            for o in t['args']:
+                if o.get('k') == 'const':
+                    yield o
+
+
 def handed_to(prog, closure_fn):
     """[(parent Fn, call, argument position)] — the calls of the parent that receive the closure `closure_fn` as an argument
     (e.g. the iterator adapter it is the predicate / mapper of)"""
@@ -1103,6 +1172,13 @@ def deep_origins(prog, fn, start, depth=3, _seen=None, follow_all=True):
     if depth <= 0:
         out.params |= {(fn.name, p) for p in org.params}
         return out
+    # a closure handed on the way (`opt.map_or_else(zero, |x| f(x))`): what it returns is part of the value
+    for kind in org.aggs:
+        if kind.startswith('closure:'):
+            g2 = prog.by_crate[fn.crate].get(kind[len('closure:'):])
+            if g2 is not None and (g2.name, 0) not in _seen:
+                _seen.add((g2.name, 0))
+                _merge(out, deep_origins(prog, g2, 0, depth - 1, _seen, follow_all))
     is_clos = fn.kind in ('Closure', 'SyntheticCoroutineBody')
     for p in org.params:
         if is_clos and p == 1:
@@ -1111,6 +1187,14 @@ def deep_origins(prog, fn, start, depth=3, _seen=None, follow_all=True):
         if key in _seen:
             continue
         _seen.add(key)
+        if is_clos:
+            # the argument of a closure handed to an iterator / Option adaptor is an item of the receiver
+            hs = [(par, hc) for (par, hc, ai) in handed_to(prog, fn) if ai >= 1 and
+                  (hc.decl.startswith('std::iter::') or re.search(r'^std::(option::Option|result::Result)', hc.decl))]
+            if hs:
+                for par, hc in hs:
+                    _merge(out, deep_origins(prog, par, hc.args[0], depth - 1, _seen, follow_all))
+                continue
         callers = [c for c in prog.callers.get(fn.name, []) if not is_testsupport(c.fn.name)]
         if not callers:
             out.params.add(key)
@@ -1336,6 +1420,13 @@ class Program:
                     tr = c.decl.rsplit('::', 1)[0]
                     for g in self.trait_impl_methods(tr, c.short):
                         st.append((g, d + 1))
+            # functions used as values: `iter.map(helper)`, `let f: fn(..) = if c { a } else { b }` — reachable through the pointer
+            for o in const_operands(f):
+                dfn = o.get('def')
+                if dfn:
+                    tgt = self.resolve(dfn, f.crate)
+                    if tgt is not None and tgt.kind in ('Fn', 'AssocFn'):
+                        st.append((tgt, d + 1))
         return seen
 
 
